@@ -30,7 +30,7 @@ def _cases() -> List[dict]:
 
 def plan(tier: str) -> dict:
     return {
-        "runs": 15000 if tier == "quick" else 200000,
+        "runs": 15000 if tier == "quick" else 1000000,
         "budget": 150 if tier == "quick" else 900,
         "cases": _cases(),
         "chunk": 30,
